@@ -111,20 +111,6 @@ Qed.
 
 (** * processAssignments, clause by clause *)
 
-Definition target_of (a : assignment) : var := (""%string, as_target a).
-
-(** What one evaluated clause assigns: the value itself for `computes`, the
-    result of one collect step on the current array for `collects`. *)
-Definition assigned_value (a : assignment) (cur : value) (x : value) : option (option value) :=
-  match as_mode a with
-  | ASingle => Some (Some x)
-  | m => match collect m (cur_array cur) (as_n a) x with
-         | COk r => Some (Some (VArr r))
-         | CErr => Some None
-         | CPanic => None
-         end
-  end.
-
 Lemma do_assigns_cons c s ts a tl :
   do_assigns c s ts (a :: tl) =
   if negb (has_deps s (as_expr a)) then do_assigns c s ts tl else
@@ -494,18 +480,6 @@ Proof.
 Qed.
 
 (** * Kept across activation periods *)
-
-(** The part of a round before the auditors are visited. *)
-Definition prelude (c : acfg) (s : st) (ts : Q) (vs : list (var * value)) : st * list out :=
-  let s0 := {| s_mood := s_mood s; s_mood_start := s_mood_start s; s_vals := s_vals s;
-               s_act := filter (fun x => String.eqb (fst x) "") (s_act s);
-               s_ms := map (fun '(b, m) => (b, {| ms_woken := false; ms_auditing := ms_auditing m; ms_fsm := ms_fsm m |})) (s_ms s) |} in
-  let '(s1, o1) := set_var c s0 t_var (VNum ts) ts in
-  let '(s2, o2) := set_var c s1 mood_var (VStr (s_mood s1)) ts in
-  let moodt := match s_mood_start s2 with None => ts | Some m0 => (ts - m0)%Q end in
-  let '(s3, o3) := set_var c s2 moodt_var (VNum moodt) ts in
-  let '(s4, o4) := set_signals c s3 ts vs in
-  (s4, o1 ++ o2 ++ o3 ++ o4).
 
 Lemma round_eq c final s ts vs :
   round c final s ts vs =
